@@ -308,7 +308,9 @@ func (n *ReconcileNode) Reconcile(ctx context.Context, request reconcile.Request
 
 		err = n.client.Status().Update(ctx, node)
 
-		if err != nil && nodeStatus.StatusChanged.CompareAndSwap(true, false) {
+		if err != nil {
+			// whatever this round changed or merged from the cloud is lost, the record is stale until the next sync
+			nodeStatus.StatusChanged.Store(false)
 			nodeStatus.NeedSyncOpenAPI.Store(true)
 		}
 
